@@ -181,7 +181,16 @@ def eval_shard(path):
             break
     if rc != 0 or not m or not k:
         return None, None, "exit %d\n%s" % (rc, out)
-    pairs = [(int(a), int(b)) for a, b in re.findall(r"\((\d+)(?:%nat)?\s*,\s*(\d+)(?:%N)?\)", m.group(1))]
+    # Coq may wrap long lists anywhere, also right after "(": allow whitespace at every position
+    base = 0
+    mb = re.search(r"\(\* BASE (\d+) \*\)", open(path).read(200000))
+    if mb:
+        base = int(mb.group(1))   # shard-local indices (a large unary nat base overflows coqc's stack)
+    pairs = [(int(a) + base, int(b)) for a, b in
+             re.findall(r"\(\s*(\d+)\s*(?:%nat)?\s*,\s*(\d+)\s*(?:%N)?\s*\)", m.group(1))]
+    npairs = len(re.findall(r"\(", m.group(1)))
+    if npairs != len(pairs):
+        return None, None, "Error: could not parse the judgement list of %s (%d of %d pairs)" % (path, len(pairs), npairs)
     classes = [int(x) for x in re.findall(r"\d+", k.group(1))]
     return pairs, classes, out
 
